@@ -37,6 +37,20 @@ DET = {
  "C08-m4": ("C08", "./check C08 --tier quick -> exit 1 (optimal: re-hash stops early when the last parent of a level is unchanged)", ""),
  "C15-m3": ("C15", "./check C15 --tier quick -> exit 1 (full: removal list with a repeated index wipes an unnamed position)", ""),
  "C15-m4": ("C15", "./check C15 --tier quick -> exit 1 (pm: empty list reported after a range write that leaves a gap)", ""),
+ "C03-m3": ("C03", "./check C03 --tier quick -> exit 1 (recovery panics on two messages with the same share)", ""),
+ "C03-m4": ("C03", "./check C03 --tier quick -> exit 1 (secret 0 is not recovered)", "the check first answered with a tool error: its negative control picked a lenient line on the deviating trace; controls no longer mask established deviations"),
+ "C04-m3": ("C04", "./check C04 --tier quick -> exit 1 (published root is the tree's, not the fold of the witness' commitment)", "missed at first; non-member witnesses (other limit, other secret, empty position) through the tree entry added"),
+ "C04-m4": ("C04", "./check C04 --tier quick -> exit 1 (y / nullifier of the previous message id)", ""),
+ "C10-m3": ("C10", "./check C10 --tier quick -> exit 1 (witness encoding missing its last bytes decodes)", ""),
+ "C10-m4": ("C10", "./check C10 --tier quick -> exit 1 (narrow element after a wide one encoded with stale high limbs)", ""),
+ "C11-m3": ("C11", "./check C11 --tier quick -> exit 1 (FFI reports failure where the API succeeds with an empty output: recovery across epochs)", "missed at first; double-signal and cross-epoch recovery added to the lock-step"),
+ "C11-m4": ("C11", "./check C11 --tier quick -> exit 1 (FFI delete of an unset position succeeds and moves the leaf count)", ""),
+ "C12-m3": ("C12", "./check C12 --tier quick -> exit 1 (witness with 19 / 21 levels proves 'successfully')", ""),
+ "C12-m4": ("C12", "./check C12 --tier quick -> exit 1 (message id >= limit proves 'successfully' through the tree entry)", ""),
+ "C13-m3": ("C13", "./check C13 --tier quick -> exit 1 (e + p accepted for a small external nullifier)", ""),
+ "C13-m4": ("C13", "./check C13 --tier quick -> exit 1 (roots buffer with a trailing partial entry panics)", ""),
+ "C14-m3": ("C14", "./check C14 --tier quick -> exit 1 (seed read through a short-read reader gives another identity)", "missed at first; seeds (and every byte-level input of the protocol executor) are now also delivered through readers that return 1, 7 or 64 bytes per call"),
+ "C14-m4": ("C14", "./check C14 --tier quick -> exit 1 (threads of one process generate the same identities)", ""),
  "C09-m1": ("C09", "./check C09 --tier quick -> exit 1 (Poseidon of 8 inputs: round certificate rejected)", ""),
  "C09-m2": ("C09", "./check C09 --tier quick -> exit 1 (byte-level / FFI hash of a 4097-byte signal differs from Keccak.tla)", "missed at first; hash-to-field lengths 4095, 4096, 4097 (8192, 10000 thorough) added"),
  "C11-m1": ("C11", "./check C11 --tier quick -> exit 1 (metadata after set_tree differs between FFI and API)", "missed at first; life-cycle scenario and set_tree inside random histories added"),
